@@ -343,6 +343,9 @@ def run(ctx):
                           f"shape {shape_key(d)} (e.g. {d['module']}:{d['tag']}) at pos {dd['pos']} prior {prior} value {v!r}: {why[1]}",
                           {"mode": "shape", "decl": {k: x for k, x in d.items()}, "seed": ctx.seed})
     ctx.set("shape_evaluations", evals)
+    for d, _ in jobs[ctx.seed % len(jobs):][:2]:
+        ctx.sample({"shape_case": {"module": d["module"], "item": d["tag"], "declaration": [d["cls"], d["type"], d["pos"], d["bitpos"], d["size"], d["maxitems"], d["rw"]],
+                                   "labels": (d["items"] or [])[:6], "enumerated": "all prior field contents x all domain values, positions {shipped, 0, 511, end}"}})
     ctx.log(f"A: {len(shapes)} shapes exhaustively: {evals} writes")
     full = not ctx.quick
     jobs = [(m, k, full, ctx.seed) for m, k in lib.table_modules()]
